@@ -18,7 +18,7 @@ def RAISE_ORACLE(profile):
     return 'I12.raise' if profile == 'faults' else 'I01.raise'
 
 
-FAULT_KINDS = ['nan_inplace', 'hess_without_grad_kept', 'pandas_dropped_column', 'pandas_added_column', 'absent_column', 'dup_name', 'draws_outside', 'rv_outside', 'hess_without_grad', 'bad_choice_key',
+FAULT_KINDS = ['empty_avail', 'bad_avail_keys_kept', 'nan_inplace', 'hess_without_grad_kept', 'pandas_dropped_column', 'pandas_added_column', 'absent_column', 'dup_name', 'draws_outside', 'rv_outside', 'hess_without_grad', 'bad_choice_key',
                'bad_avail_keys', 'nan_data', 'text_data', 'empty_data', 'panel_outside', 'nests_overlap',
                'nests_outside', 'nests_overlap_far', 'panel_outside_mc', 'missing_read', 'missing_unread']
 
@@ -67,8 +67,12 @@ def make_ops(rng, cfg, profile, tier):
             ops.append({'op': 'CALC_NULL', 'a': [rng.randrange(8), rng.random() < 0.5]})
         elif r < 0.94:
             ops.append({'op': 'ADD_COLUMN', 'a': [rng.randrange(nf), rng.randrange(2)]})
-        elif r < 0.96:
+        elif r < 0.955:
             ops.append({'op': 'REORDER_COLUMNS', 'a': [rng.randrange(2), rng.randrange(1 << 16)]})
+        elif r < 0.97:
+            ops.append({'op': 'CHANGE_INIT', 'a': [rng.choice(['bf0', 'bf1']), rng.choice([0.0, 0.0, 0.75, -2.0])]})
+        elif r < 0.985:
+            ops.append({'op': 'COPY_EVAL', 'a': [rng.randrange(nf), rng.randrange(2)]})
         else:
             ops.append({'op': 'NEW_FORMULA', 'a': [rng.randrange(1 << 30)]})
     if profile == '' and rng.random() < 0.1:
@@ -127,6 +131,9 @@ class Session:
         if carry:
             self.formulas = list(carry['formulas'])
             self.fault_seen = carry.get('fault_seen', False)
+            self.fixed_now = dict(carry.get('fixed_now', {}))
+            for nm_, val_ in self.fixed_now.items():
+                self.builder.beta_specs[nm_] = (val_, None, None, 1)
             ctx.count('restarts')
             for dbi, fi, colname in carry.get('col_history', []):
                 self.dbs[dbi].add_column(self.expr(fi), colname)
@@ -138,12 +145,12 @@ class Session:
 
     def export_carry(self):
         return {'formulas': self.formulas, 'col_history': self.col_history, 'fault_seen': self.fault_seen,
-                'flag': self.carry_flag}
+                'flag': self.carry_flag, 'fixed_now': getattr(self, 'fixed_now', {})}
 
     def recover_after_restart(self, what):
         """Bounded liveness: once faults have stopped (new process), every valid specification of the
         session evaluates again, to its reference value."""
-        betas = dict(eb.BETA_VALUES)
+        betas = {**eb.BETA_VALUES, **getattr(self, 'fixed_now', {})}
         free = {n: v for n, v in betas.items() if not n.startswith('bf')}
         n_ok = 0
         for fi in range(len(self.formulas)):
@@ -172,6 +179,7 @@ class Session:
 
     def betas_at(self, k):
         b = dict(eb.BETA_VALUES)
+        b.update(getattr(self, 'fixed_now', {}))
         for j, nm in enumerate(['b0', 'b1', 'b2', 'b3']):
             b[nm] = round(b[nm] + 0.3 * k - 0.2 * j * (k % 2), 4)
         return b
@@ -316,7 +324,7 @@ class Session:
         elif kind == 'MAKE_BIOGEME':
             idxs, dbi, T = a
             idxs = [x % len(self.formulas) for x in idxs]
-            betas = dict(eb.BETA_VALUES)
+            betas = self.betas_at(0) if False else {**eb.BETA_VALUES, **getattr(self, 'fixed_now', {})}
             ok = all(self.valid_at(x, betas, dbi) is not None for x in idxs)
             if not ok:
                 ctx.log(kind, 'skip-domain')
@@ -336,6 +344,63 @@ class Session:
                         self.sharing_probe(x)
                     self._after_valid()
                 ctx.log(kind, idxs, dbi, T)
+        elif kind == 'CHANGE_INIT':
+            # a fixed parameter is given another value (0 included) in every formula of the session
+            nm_, val_ = a
+            self.fixed_now = dict(getattr(self, 'fixed_now', {}), **{nm_: val_})
+            for e_ in self.exprs.values():
+                e_.change_init_values({nm_: val_})
+            if nm_ in self.builder.betas:
+                self.builder.betas[nm_].initValue = val_
+            self.builder.beta_specs[nm_] = (val_, None, None, 1)
+            self.biogemes = []      # objects built earlier hold the value the parameter had at construction
+            ctx.log(kind, nm_, val_)
+        elif kind == 'COPY_EVAL':
+            # a deep copy of a formula, with one variable renamed, used next to its original in one formula
+            import copy
+            fi, dbi = a
+            fi %= len(self.formulas)
+            betas = {**eb.BETA_VALUES, **getattr(self, 'fixed_now', {})}
+
+            def subst(n):
+                if n[0] == 'var' and n[1] == 'c0':
+                    return ['var', 'c0_alt']
+                if n[0] == 'ref':
+                    return subst(self.pool[n[1]])
+                if n[0] == 'linutil':
+                    return ['linutil', [[b_, 'c0_alt' if v_ == 'c0' else v_] for b_, v_ in n[1]]]
+                if n[0] == 'elem':
+                    return ['elem', {k_: subst(v_) for k_, v_ in n[1].items()}, subst(n[2])]
+                if n[0] == 'condsum':
+                    return ['condsum', [[subst(c_), subst(t_)] for c_, t_ in n[1]]]
+                if n[0] == 'multsum':
+                    return ['multsum', [subst(t_) for t_ in n[1]]]
+                if n[0] in ('loglogit', 'logit'):
+                    return [n[0], {k_: subst(v_) for k_, v_ in n[1].items()},
+                            None if n[2] is None else {k_: subst(v_) for k_, v_ in n[2].items()}, subst(n[3])]
+                if n[0] in ('in', 'powc'):
+                    return [n[0], subst(n[1]), n[2]]
+                return [n[0]] + [subst(c_) if isinstance(c_, list) else c_ for c_ in n[1:]]
+            ast2 = ['+', self.formulas[fi], ['*', ['num', 2.0], subst(self.formulas[fi])]]
+            try:
+                want = eb.ref_rows(ast2, self.pool, self.rows_for(dbi), betas)
+            except (ref.RefError, OverflowError, ZeroDivisionError, ValueError):
+                want = None
+            if want is None or 'c0_alt' not in self.dbs[dbi].data.columns:
+                ctx.log(kind, 'skip-domain')
+            else:
+                b_ = ref.Builder(dict(self.builder.beta_specs), pool=self.pool, share_elementary=True)
+                original = b_.build(self.formulas[fi])
+                twin = copy.deepcopy(original)
+                twin.rename_elementary(['c0'], suffix='_alt')
+                both = original + 2 * twin
+                free = {n_: v_ for n_, v_ in betas.items() if not n_.startswith('bf')}
+                got = self.lib(f'get_value_c of formula {fi} plus twice its renamed deep copy',
+                               lambda: both.get_value_c(database=self.dbs[dbi], betas=free, aggregation=False, prepare_ids=True))
+                if got is not None:
+                    self.cmp(f'formula {fi} + 2 x (its deep copy with c0 renamed c0_alt)', got, want)
+                    ctx.probe('deep copy used next to its original')
+            ctx.log(kind, fi)
         elif kind == 'REORDER_COLUMNS':
             dbi = a[0]
             cols = list(self.dbs[dbi].data.columns)
@@ -352,7 +417,7 @@ class Session:
             else:
                 rec = self.biogemes[a[0] % len(self.biogemes)]
                 fi, dbi = rec['idx'][0], rec['dbi']
-                betas = dict(eb.BETA_VALUES)
+                betas = {**eb.BETA_VALUES, **getattr(self, 'fixed_now', {})}
                 w_other = self.valid_at(fi, betas, 1 - dbi)
                 w_own = self.valid_at(fi, betas, dbi)
                 if w_other is None or w_own is None:
@@ -399,7 +464,7 @@ class Session:
         elif kind == 'ADD_COLUMN':
             fi, dbi = a
             fi %= len(self.formulas)
-            betas = dict(eb.BETA_VALUES)
+            betas = {**eb.BETA_VALUES, **getattr(self, 'fixed_now', {})}
             want = self.valid_at(fi, betas, dbi)
             colname = f'n{len(self.extra_cols[dbi])}'
             if want is None:
